@@ -18,6 +18,7 @@ from black_it.loss_functions.msm import MethodOfMomentsLoss
 from harness.common import Case, f
 from harness.losses import per_series_filter, reducing_filter, AckFun, SymC, loss_world
 from symx.core import UF_EXP, UF_LOG, UF_POW, UF_SQRT, Sym, canon, is_sym, lift
+from symx.core import reraise_if_harness  # noqa: E402
 
 LEVEL = "other"
 FUNCTIONS = [
@@ -160,6 +161,7 @@ def case_minkowski(p, E, N, D, wmode, fmode, omit=False):
         try:
             got = _mk_loss(MinkowskiLoss, omit, p=p, coordinate_weights=w, coordinate_filters=cf).compute_loss(sim, real)
         except Exception as e:  # noqa: BLE001
+            reraise_if_harness(e)
             return True, f"raised {type(e).__name__}: {e}"
         ww = [1.0 / D] * D if w is None else w
         exp = sum(float(np.sum(np.abs(_apply_cf(sim, cf, i).mean(axis=0) - real[:, i]) ** p) ** (1.0 / p)) * ww[i] for i in range(D))
@@ -239,6 +241,7 @@ def case_msm(cov, std, k, E, N, D, wmode, fmode, omit=False):
         try:
             got = _mk_loss(MethodOfMomentsLoss, omit, covariance_mat=cov_arg, coordinate_weights=w, moment_calculator=calc, coordinate_filters=cf, standardise_moments=std).compute_loss(sim, real)
         except Exception as e:  # noqa: BLE001
+            reraise_if_harness(e)
             return True, f"raised {type(e).__name__}: {e}"
         ww = [1.0 / D] * D if w is None else w
         exp = 0.0
@@ -304,6 +307,7 @@ def case_fourier(ff, fval, E, N, D, wmode, fmode, omit=False):
         try:
             got = _mk_loss(FourierLoss, omit, frequency_filter=filt, f=fval, coordinate_weights=w, coordinate_filters=cf).compute_loss(sim, real)
         except Exception as e:  # noqa: BLE001
+            reraise_if_harness(e)
             return True, f"raised {type(e).__name__}: {e}"
         ww = [1.0 / D] * D if w is None else w
         nf = N // 2 + 1
@@ -418,6 +422,7 @@ def case_gsl(V, L, E, N, symreal=False, symsim=True, defaults=False, prior_n=0):
             _gsl_prior_call(loss, prior_n)
             got = loss.compute_loss(sim, real)
         except Exception as e:  # noqa: BLE001
+            reraise_if_harness(e)
             return True, f"raised {type(e).__name__}: {e}"
 
         def symb(s):
@@ -524,6 +529,7 @@ def case_likelihood(h, E, N, S, D, fmode, omit=False):
             try:
                 got = _mk_loss(LikelihoodLoss, omit, coordinate_filters=cf, h=h).compute_loss(sim, real)
             except Exception as e:  # noqa: BLE001
+                reraise_if_harness(e)
                 return True, f"raised {type(e).__name__}: {e}"
         hh = bw()
         fs = np.stack([_apply_cf(sim, cf, d) for d in range(D)], axis=2)  # (E,S,D)
